@@ -7,6 +7,19 @@ VERIF = os.path.dirname(os.path.dirname(os.path.abspath(__file__)))
 props = [json.loads(l) for l in open(os.path.join(VERIF, "properties.jsonl"))]
 
 CLAIMED = {
+    "C17": dict(
+        category="proof",
+        text="Closed theorems: any reported verification problem makes compile_routine fail with a compilation error before "
+             "compiling (and skip_verification bypasses exactly that); a repeated routine without exactly one child or with own "
+             "resources is a problem at any depth (predicates regenerated from verification.py); a connection cycle of any length "
+             "and a multiply connected port are problems (Kahn soundness on the port graph); the child loop of the compile model "
+             "never fails a dictionary lookup at any depth. Partial: exceptions and non-termination inside sympy cannot be "
+             "exhibited by the model; every stream records the exception class of the real code under a per-case time limit, "
+             "and the robust/faults streams check outcome classes on valid and single-fault hierarchies.",
+        design_ref="DESIGN.md section 5 C17",
+        note="Trusted: Coq kernel; hand model of qref.verify_topology (outside the repository) tied by the fault stream; sympy.",
+        technique="Coq proofs of rejection and lookup safety + fault-injection differential stream",
+    ),
     "C19": dict(
         category="proof",
         text="Closed theorems about _get_leading_terms and its two helpers as regenerated from analysis.py on every run: for the "
